@@ -120,6 +120,13 @@ CHECKS["C17"] = dict(
     design_ref="3/C17",
 )
 
+CHECKS["C18"] = dict(
+    technique="model-based random walks (Hypothesis-generated operation sequences) over the builder's proposed updates with a partition-validity invariant after every step",
+    text="Boards 1..5 x 1..5 (thorough 7x7); a drawn target partition fixes feasible bounds (min/max block count and size, some None); start from initial() (single block or initial_blocks = target, also with allow_unmet_constraints_first), Python's random seeded per case; up to 40 picks among candidates(cur) applied with copy_with_update. After every step and on sibling candidates: every cell in exactly one non-empty block, every block orthogonally connected (BFS), block count and sizes inside the bounds, the previous value equal to a deep copy taken before, and no block list shared between the new and the previous value. Exploration (sampled histories).",
+    note="Trusted base: the 40-line invariant in checks/c18.py. initial() runs under a guard of 3000 random.choice calls (a hit is inconclusive; none observed). 10/10 sensitivity mutants caught.",
+    design_ref="3/C18",
+)
+
 NOT_BUILT_REASON = "check not built yet in this session (planned in DESIGN.md section 3); not claimed until it runs quietly and is mutation-tested"
 
 def main():
